@@ -11,11 +11,11 @@ from ..refs import contentline as R2, fold as R3, tree
 ID = "C10"
 RULE = ("API programs from G3 (all component kinds, zoned values of several zones so that add_missing_timezones has work, parameters, repeated properties, nested "
         "unknown components): (1) to_ical() twice gives identical bytes and leaves the deep observation (R8 + parameters of every value object by identity + "
-        "errors) unchanged, also for values stored as ready-made vDatetime/vPeriod/vDDDLists/vDDDTypes objects; (2) sorted=True: up to 24 sampled permutations of "
+        "errors) unchanged, also for values stored as ready-made vDatetime/vPeriod/vDDDLists/vDDDTypes objects, and identical bytes twice after the .dt of a stored value object was reassigned; (2) sorted=True: up to 24 sampled permutations of "
         "the insertion history of distinct properties and parameters (at every nesting level) give identical bytes, while repeated properties and "
         "subcomponents keep insertion order; (3) sorted=False: the property-name sequence of every component equals first-insertion order; (4) the "
         "line sequence is a balanced BEGIN/END nesting; (5) the same program run in fresh subprocesses with PYTHONHASHSEED in {0,1,2,3,4211} (thorough: 16 "
-        "seeds) gives identical sha-256 for to_ical(), to_ical(sorted=False) and after get_used_tzids()+add_missing_timezones(); non-trivial = program "
+        "seeds) (with date lists of mixed zones and values whose tzinfo has no zone name - datetime.timezone, dateutil tzoffset/gettz/tzutc - added) gives identical sha-256 for to_ical(), to_ical(sorted=False) and after get_used_tzids()+add_missing_timezones(); non-trivial = program "
         "with >= 6 properties and a subcomponent; distinct by case hash")
 ASSUMPTIONS = ["the models are written to a file by the worker and only *built and serialised* in the hash-seed children, so the generator cannot introduce hash-seed dependence",
                "hash seeds are sampled, not enumerated"]
@@ -180,6 +180,21 @@ def check_case(ctx, case):
         ctx.fail("unbalanced-nesting", observed=prob, expected="balanced BEGIN/END")
         return
     ctx.count("purity-checks")
+    # ---- a value object whose .dt was reassigned (another zone / UTC / floating) after it was stored: whatever is written, it is written twice
+    for flag in (True, False):
+        mut = build(model)
+        evm = mut.subcomponents[0] if mut.subcomponents else mut
+        v1, v2 = vDatetime(z), vDDDTypes(z)
+        evm["X-REASSIGNED"] = v1
+        evm.add("dtstart" if "DTSTART" not in evm else "x-reassigned-too", v2)
+        v1.dt = vals.py(("dt", 2024, 5, 6, 7, 8, 9, rng.choice(("zone:Asia/Tokyo", "UTC", None, "zone:America/New_York"))))
+        v2.dt = vals.py(("dt", 2024, 5, 6, 7, 8, 9, rng.choice(("zone:Asia/Tokyo", "UTC", None, "zone:America/New_York"))))
+        m1 = mut.to_ical(sorted=flag)
+        m2 = mut.to_ical(sorted=flag)
+        if m1 != m2:
+            k = next((j for j, (x, y) in enumerate(zip(m1.split(b"\r\n"), m2.split(b"\r\n"))) if x != y), -1)
+            ctx.fail("not-deterministic-after-value-reassignment", observed=(f"sorted={flag}", m1.split(b"\r\n")[k][:120], m2.split(b"\r\n")[k][:120]), expected="identical bytes")
+            return
     # ---- a VTIMEZONE added after other subcomponents stays where it was inserted (sorted or not)
     from icalendar import Timezone, TimezoneStandard
     from datetime import datetime as _dt, timedelta as _td
